@@ -152,8 +152,8 @@ func (s *S) Chan(op string, ch any, length func() int, capacity int, try func() 
 	if t == nil {
 		return false
 	}
-	if capacity == 0 && op != "close" {
-		panic("verif: unbuffered channel operation is not modelled by the scheduler")
+	if capacity == 0 && op == "send" {
+		panic("verif: a send on an unbuffered channel is not modelled by the scheduler")
 	}
 	if s.closed == nil {
 		s.closed = map[any]bool{}
@@ -167,6 +167,19 @@ func (s *S) Chan(op string, ch any, length func() int, capacity int, try func() 
 		s.release(t, ch)
 		s.chanQ[ch] = append(s.chanQ[ch], t.obs)
 	case "recv":
+		if capacity == 0 {
+			// unbuffered: the receive is tried for real whenever the scheduler looks for enabled threads; it
+			// succeeds once the channel is closed (the broadcast idiom close(done) / <-done) or a sender waits
+			done := false
+			s.Block(func() bool {
+				if !done && try() {
+					done = true
+				}
+				return done
+			}, "channel receive (unbuffered)")
+			s.acquire(t, ch)
+			return true
+		}
 		s.Block(func() bool { return length() > 0 || s.closed[ch] }, "channel receive")
 		if q := s.chanQ[ch]; len(q) > 0 {
 			t.obs = mix(t.obs, q[0]) // what is received is determined by what the sender had seen
